@@ -472,6 +472,12 @@ class DiffXReader(object):
         fp = self._fp
         content = fp.read(length)
 
+        if not content:
+            # There's no content, and therefore nothing ending in a newline.
+            raise DiffXParseError(
+                'Expected a newline after content',
+                linenum=self._linenum)
+
         # First, determine the line endings that we're going to be working
         # with.
         if line_endings:
